@@ -156,3 +156,41 @@ func zzAcceptableErr(err error) bool {
 	var ee ExitError
 	return errors.Is(err, ErrPanic) || errors.As(err, &ee) || errors.Is(err, ErrTest)
 }
+
+// zzFmtCorpus: hand-written layouts of every syntax form (formatting corpus of C06/C07, also used by C08).
+var zzFmtCorpus = []string{
+	"x:=1\nprint   x\n",
+	"x := 1 // decl\n\n\n\nprint x // use\n// tail\n",
+	"\n\n// head\nx := [1   2\t3]\nprint x[ 0 ] x[1 : ] x[ : 2] x[:]\n",
+	"a := [\n    1 // one\n\n\n    2\n\n]\nprint a\n",
+	"a := [ // first\n  1 2\n  3 ]\nprint a\n",
+	"m := {a:1   b : 2}\nprint m.a m[ \"b\" ]\n",
+	"m := {\n  a: 1 // A\n  // own\n\n\n  b: [\n     1\n  ]\n}\nprint m\n",
+	"func f:num n:num   m:num // sig\n  return n+m // r\nend // e\nprint (f 1 2)\n",
+	"func g a:any...\n\tprint (len a)\nend\ng 1 \"s\"\n",
+	"print 1\nfunc f\n    print 2\nend\nprint 3\nf\n",
+	"on key k:string // c1\n    print k // c2\nend // c3\n",
+	"if true // a\n  print 1\nelse if false // b\n  print 2\nelse // c\n  print 3\nend // d\n",
+	"i := 0\nwhile i < 2 // w\n\n  i = i + 1 // inc\n\n\n  // own\nend // e\n",
+	"for i := range 1 10 2 // f\n  print i\nend // e\nfor range 2\n  print 0\nend\n",
+	"x:num // typed\ny:[]string\nz:{}any\nx = 2\ny = [ \"a\" ]\nz.k = x\nprint x y z\n",
+	"v:any\nv = 1\nn := v.(num)\nprint n -n !(n == 1)\n",
+	"s := \"a\\tb\" + \"ñ\"\nprint s s[0] (s + \"x\")\n",
+	"x := (1 + 2) * 3 - -4 / 5 % 6\ny := 1.50\nb := x < y and !(x >= y) or x == y\nprint x y b\n",
+	"print 1 \r\nprint 2 \t\r\n",
+	"print 1 // no newline at end",
+	"\n\n\n",
+	"",
+	"func f\n    return\nend\n\n\n\nfunc g\n    f\nend\ng\n",
+	"// a\n\n// b\nfunc f\n    print 1\nend\n// c\nf\n",
+	"x := [[1 2] [ ]  {} ]\nprint x\n",
+	"print (len \"abc\")   (len [1 2])\n",
+	// number literals of every magnitude are written back in a form that parses again
+	"a := 0.00001\nb := 2500000\nc := 123456789012345678901234\nd := 0.000000001\nprint a b c d 0.5 100000 1234567.125\n",
+	// multi-line literals inside blocks, with trailing and own-line comments
+	"if true\n    a := [\n        1 // one\n    ]\n    print a\nend\n",
+	"func f\n    m := {\n        a: 1 // A\n        // own\n        b: [\n            2 // two\n        ]\n    }\n    print m\nend\nf\n",
+	"for i := range 2\n    if i > 0\n        a := [ // first\n            i\n            [\n                i // nested\n            ] // after\n        ]\n        print a\n    end\nend\n",
+	"on key k:string\n    print [\n        k // key\n    ] {\n        a: k // again\n    }\nend\n",
+	"print 1\nprint 2\n// c\nfunc f\n    print 3\nend\nf\n",
+}
